@@ -721,6 +721,17 @@ def eq_other(self, a, b, st, spec):
             return z3.And(z3.Not(w.isinf), to_real(w.val) == to_real(o))
     if isinstance(a, Ref) and isinstance(b, Ref) and spec:
         return z3.BoolVal(a.oid == b.oid)
+    if isinstance(a, Ref) and isinstance(b, Ref) and not spec:
+        sa, sb = set_of(self, st, a), set_of(self, st, b)
+        if sa is not None and sb is not None and sa["elem"] == sb["elem"]:
+            # SortedSet == SortedSet: equality as sets (sortedcontainers compares the element sets)
+            x = z3.Const(V.fresh_name("x"), sa["elem"])
+            self.used_models.add(TRUSTED_SC)
+            return z3.ForAll(x, sa["mem"][x] == sb["mem"][x])
+        q = self.method_contract(_heap(st, a)["$cls"], "__eq__")
+        if q is not None:
+            # a == b on objects of a class whose __eq__ is under contract: that contract
+            return self.call_contract(q, None, st, recv=a, argvals=[b])
     return _prev_eq(self, a, b, st, spec)
 
 
